@@ -11,7 +11,7 @@ import (
 
 // C07: unknown options are never silently accepted.
 
-var c07Decl = &GenCfg{Depth: 3, Fanout: 3, MaxOpts: 3, MaxGroups: 2, NestGroups: 2, Kinds: []Kind{KBool, KString, KInt, KStringSlice, KBoolSlice, KMapSS, KFloat64, KTri, KBoolPtr},
+var c07Decl = &GenCfg{Depth: 3, Fanout: 3, MaxOpts: 3, MaxGroups: 2, NestGroups: 2, Kinds: []Kind{KBool, KString, KInt, KStringSlice, KBoolSlice, KMapSS, KFloat64, KTri, KBoolPtr, KToggle},
 	Pos: true, PosPct: 25, Ns: true, Req: 0, OptArg: true, Aliases: true, SubOpt: 40, NonASCII: true, CmdPct: 85, NsDelims: []string{"-", "::"}, Plain: true, NoFlag: true, ViaAdd: 3, StaticTwins: true,
 	ParserOpts: []flags.Options{flags.PassDoubleDash, flags.HelpFlag, flags.PassAfterNonOption}}
 
